@@ -235,3 +235,20 @@ Example send_error_example :
   exists s, run FIX24 init_go ([] ++ Begin 0%nat 0%Z :: [Notify 1] ++ Sent 0%nat false :: [Notify 1]) = Ok s /\
             result_of s 0%nat = Some RSendErr /\ tbl s = [].
 Proof. eexists. split; [vm_compute; reflexivity|]. split; vm_compute; reflexivity. Qed.
+
+(* ------------------------------------------------------------------ *)
+(* ValidateDefaultRouter *)
+From PV Require Import Model.PingVDR.
+
+Theorem vdr_nil_iff r0 r1 r2 : fst (vdr r0 r1 r2) = VNil <-> r0 = RNil /\ (r1 = RNil \/ r2 = RNil).
+Proof.
+  destruct r0, r1, r2; cbn; split; intros H; try discriminate; try reflexivity; try tauto;
+    destruct H as [H0 [H1|H1]]; discriminate.
+Qed.
+
+Theorem vdr_pings r0 r1 r2 : (1 <= snd (vdr r0 r1 r2) <= 3)%nat /\
+  (snd (vdr r0 r1 r2) = 1%nat <-> r0 <> RNil) /\ (snd (vdr r0 r1 r2) = 2%nat <-> r0 = RNil /\ r1 = RNil).
+Proof.
+  destruct r0, r1, r2; cbn; repeat split; try lia; try discriminate; try congruence; try tauto;
+    intros H; try discriminate; try (destruct H; discriminate); try (exfalso; apply H; reflexivity).
+Qed.
